@@ -74,6 +74,10 @@ Check (C01_encoder_stream_lossless : forall o L si rate bps blocks k bytes fuel 
 Check (C19_encoder_subframe_bound : forall o L bps xs,
   xs <> [] -> forallb (fits bps) xs = true -> 1 <= bps ->
   sf_bits bps (enc_sub o L bps xs) <= 8 + N.of_nat (length xs) * bps).
+Check (C19_encoder_frame_bound : forall o L si rate bps number chans bytes,
+  enc_frame_bytes o L rate bps number chans = Some bytes -> block_ok si bps chans ->
+  let ch := N.of_nat (length chans) in let n := block_len chans in
+  N.of_nat (length bytes) <= 16 + (ch * (8 + n * bps) + (if ch =? 2 then n else 0) + 7) / 8 + 2).
 (* block_ok is what it says *)
 Check (eq_refl : block_ok = fun si bps chans =>
   (1 <= length chans <= 8)%nat /\ 1 <= bps /\ bps <= 32 /\
